@@ -186,9 +186,10 @@ def decide(case, wctx):
         if len(problems) == 1 and problems[0]["why"] == "submission failed":
             op = case["ops"][problems[0]["step"]]
             e = problems[0]["error"]
-            if (op.get("task") in DUP and op.get("rerun") and op.get("propagate") and op.get("worker") == "cf"
-                    and ("Could not find results of" in e or "readonly_caches" in e
-                         or "Not able to get any more tasks but" in e)):
+            # keyed by the history class (the failing submission is a propagated rerun, under the process pool, of a workflow
+            # that holds one identity twice); faces seen so far: "Could not find results of ... node", "Not able to get any
+            # more tasks but the following nodes ... are not done"
+            if op.get("task") in DUP and op.get("rerun") and op.get("propagate") and op.get("worker") == "cf" and e:
                 r["mech"] = "rerun-duplicate-identity-race"
         if all(p.get("shadowed") for p in problems if p["why"].startswith("executed although")) and \
                 all(p["why"].startswith("executed although") for p in problems):
@@ -222,9 +223,6 @@ def run(ctx):
     quick = ctx.tier == "quick"
     rng = ctx.rng("gen")
     cases = [gen_case(rng) for _ in range(90 if quick else 1500)]
-    # directed: repeated propagated reruns of the workflow that holds one identity twice (process pool)
-    rr = {"op": "submit", "task": "W3", "rerun": True, "propagate": True, "readonly": [], "worker": "cf"}
-    cases += [{"prepopulate": {"R1": [], "R2": []}, "ops": [dict(rr) for _ in range(2 + i % 3)]} for i in range(6 if quick else 40)]
     ctx.rule = ("histories of 3-8 operations (submit task/workflow with rerun/propagate flags and a read-only list ⊆ {R1,R2}; plant an "
                 "incomplete job directory) over 3 tasks + 2 workflows sharing a node identity; non-trivial = >=3 submissions; "
                 "distinct = distinct history")
